@@ -4,6 +4,7 @@ import (
 	"fmt"
 	"go/token"
 	"go/types"
+	"sort"
 	"strings"
 
 	"golang.org/x/tools/go/ssa"
@@ -154,6 +155,40 @@ func tableElem(v ssa.Value, t *tables.Tables, depth int) (string, bool) {
 		if n == t.BlackTagsVar || n == t.BlacksVar || n == t.BlackEventsVar {
 			return n, true
 		}
+	case *ssa.Parameter:
+		// a table handed to a look-up helper: every call site of the helper passes one of the tables
+		fn := x.Parent()
+		if fn == nil || fn.Pkg == nil || depth > 4 {
+			return "", false
+		}
+		idx := -1
+		for i, prm := range fn.Params {
+			if prm == x {
+				idx = i
+			}
+		}
+		var names []string
+		for _, m := range fn.Pkg.Members {
+			g, ok := m.(*ssa.Function)
+			if !ok {
+				continue
+			}
+			for _, ci := range ssax.Calls(g) {
+				if ci.Common().StaticCallee() != fn || idx >= len(ci.Common().Args) {
+					continue
+				}
+				n, ok := tableElem(ci.Common().Args[idx], t, depth+1)
+				if !ok {
+					return "", false
+				}
+				names = append(names, n)
+			}
+		}
+		if len(names) == 0 {
+			return "", false
+		}
+		sort.Strings(names)
+		return strings.Join(names, "|"), true
 	case *ssa.Alloc:
 		// local copy of an element (range value variable): find the store into it
 		for _, ref := range *x.Referrers() {
@@ -171,7 +206,89 @@ func tableElem(v ssa.Value, t *tables.Tables, depth int) (string, bool) {
 // is a table element or a constant with letters must have a NUL-stripped,
 // case-folded left side that matches the constant's case.  exemptConst lists
 // constants exempted by the property statement.
-func nameComparisonRule(p *core.Program, r *core.Result, fn *ssa.Function, t *tables.Tables, rule string, needNul bool, exemptConst map[string]string) int {
+// helperGroup: fn plus the library helpers it calls (two levels) that take or
+// return text — the name predicates may delegate their comparisons to them.
+func helperGroup(p *core.Program, fn *ssa.Function) []*ssa.Function {
+	group := []*ssa.Function{fn}
+	seen := map[*ssa.Function]bool{fn: true}
+	for depth, frontier := 0, []*ssa.Function{fn}; depth < 2 && len(frontier) > 0; depth++ {
+		var next []*ssa.Function
+		for _, g := range frontier {
+			for _, ci := range ssax.Calls(g) {
+				h := ci.Common().StaticCallee()
+				if h == nil || seen[h] || !p.InModule(h) || len(h.Blocks) == 0 {
+					continue
+				}
+				text := false
+				for _, prm := range h.Params {
+					if isStringType(prm.Type()) {
+						text = true
+					}
+				}
+				if !text {
+					continue
+				}
+				seen[h] = true
+				group = append(group, h)
+				next = append(next, h)
+			}
+		}
+		frontier = next
+	}
+	return group
+}
+
+// paramNormForms: for every function of the group, the normal form its string
+// parameters have at every call site inside the group.
+func paramNormForms(group []*ssa.Function) map[*ssa.Function]map[*ssa.Parameter]normPair {
+	envs := map[*ssa.Function]map[*ssa.Parameter]normPair{}
+	inGroup := map[*ssa.Function]bool{}
+	for _, g := range group {
+		inGroup[g] = true
+	}
+	for _, h := range group[1:] {
+		env := map[*ssa.Parameter]normPair{}
+		first := true
+		for _, g := range group {
+			for _, ci := range ssax.Calls(g) {
+				if ci.Common().StaticCallee() != h {
+					continue
+				}
+				for i, prm := range h.Params {
+					if i >= len(ci.Common().Args) || !isStringType(prm.Type()) {
+						continue
+					}
+					c, n := normFormEnv(ci.Common().Args[i], envs[g], 0)
+					if first {
+						env[prm] = normPair{c, n}
+					} else {
+						old := env[prm]
+						if old.cf != c {
+							old.cf = ""
+						}
+						old.nf = old.nf && n
+						env[prm] = old
+					}
+				}
+				first = false
+			}
+		}
+		envs[h] = env
+	}
+	return envs
+}
+
+func nameComparisonRule(p *core.Program, r *core.Result, root *ssa.Function, t *tables.Tables, rule string, needNul bool, exemptConst map[string]string) int {
+	n := 0
+	group := helperGroup(p, root)
+	envs := paramNormForms(group)
+	for _, fn := range group {
+		n += nameComparisonRuleIn(p, r, fn, envs[fn], t, rule, needNul, exemptConst)
+	}
+	return n
+}
+
+func nameComparisonRuleIn(p *core.Program, r *core.Result, fn *ssa.Function, env map[*ssa.Parameter]normPair, t *tables.Tables, rule string, needNul bool, exemptConst map[string]string) int {
 	n := 0
 	for _, b := range fn.Blocks {
 		for _, ins := range b.Instrs {
@@ -214,7 +331,7 @@ func nameComparisonRule(p *core.Program, r *core.Result, fn *ssa.Function, t *ta
 					continue
 				}
 				n++
-				cf, nf := normForm(probe, 0)
+				cf, nf := normFormEnv(probe, env, 0)
 				expr := "compare " + probe.Name() + " with " + what
 				switch {
 				case wantCase == "mixed":
@@ -294,6 +411,13 @@ func rawLengthRule(p *core.Program, r *core.Result, fn *ssa.Function, minLen int
 			}
 			k, ok := ssax.ConstInt(bo.Y)
 			if !ok {
+				// a bound that is not a constant: any rejection on the raw length is undecided
+				// for a lower bound and wrong for an upper bound
+				for succ := 0; succ < 2; succ++ {
+					if rejects(b.Succs[succ]) {
+						r.Fail(rule, core.QualName(fn), "reject on len(raw) compared with "+core.Short(ssax.Canon(bo.Y)), p.Pos(iff.Pos()), "a name is rejected because of its RAW length (measured before NUL bytes are stripped) compared with a non-constant bound: inserting NULs inside a listed name changes the verdict")
+					}
+				}
 				continue
 			}
 			// which successor rejects?
@@ -344,7 +468,15 @@ func rawLengthRule(p *core.Program, r *core.Result, fn *ssa.Function, minLen int
 
 // fullScanRule (N3): loops over a name table visit every element: index
 // starts at 0 (or -1 with pre-increment), steps by one, bound is len(table).
-func fullScanRule(p *core.Program, r *core.Result, fn *ssa.Function, t *tables.Tables, rule string) int {
+func fullScanRule(p *core.Program, r *core.Result, root *ssa.Function, t *tables.Tables, rule string) int {
+	n := 0
+	for _, fn := range helperGroup(p, root) {
+		n += fullScanRuleIn(p, r, fn, t, rule)
+	}
+	return n
+}
+
+func fullScanRuleIn(p *core.Program, r *core.Result, fn *ssa.Function, t *tables.Tables, rule string) int {
 	n := 0
 	for _, b := range fn.Blocks {
 		for _, ins := range b.Instrs {
@@ -356,7 +488,7 @@ func fullScanRule(p *core.Program, r *core.Result, fn *ssa.Function, t *tables.T
 			if !ok {
 				continue
 			}
-			n++
+			n += len(strings.Split(tn, "|"))
 			expr := "scan of " + tn
 			// index = phi [c0, phi+1] or (phi [-1, idx]) + 1
 			idx := ia.Index
